@@ -3,7 +3,7 @@
 # (cold build of radicle-node's dependencies under kani-compiler; everything comes from the local cargo registry).
 set -e
 cd "$(dirname "$0")"
-python3 -m py_compile vx/rlex.py vx/gen.py vx/run.py vx/props.py kx/kxrun.py check
+python3 -m py_compile vx/rlex.py vx/gen.py vx/run.py vx/lint.py vx/props.py kx/kxrun.py check
 command -v verus >/dev/null
 command -v cargo-kani >/dev/null
 mkdir -p out evidence .cache
